@@ -224,6 +224,9 @@ def run(ctx):
         "detector, not a documented guarantee; polyline vertices are hard witnesses",
         "the verdict of every relation is strict; in the confirmation pass a rejected bound relation gets a magnitude suffix in its key "
         "(-ulp: satisfied when the witness coordinates move by 1e-14, -small: 1e-6) computed from slackened copies logged by the harness",
+        "hull query histories (HullQuery.tla): after every query step CapBound (with 1e-12 slack, see the known ulp findings) and "
+        "ConvexHull must contain every vertex added so far, equal the model hull (exactly when no triple is collinear and <= 8 points) "
+        "and equal the answer of a fresh query object fed the same geometry",
         "hull: exact vertex cycle predicted on the dyadic embedding always and on the unit embedding only when no triple is exactly "
         "collinear; otherwise strictly extreme points must be vertices and strictly interior points must not",
     ]
@@ -243,6 +246,21 @@ def run(ctx):
             c["perm"] = rnd.randrange(1 << 30)
             cases.append(c)
     ctx.log("hull cases: %d" % len(cases))
+
+    # ---- direction A: ConvexHullQuery as a state machine (HullQuery.tla): behaviours replayed on one object
+    hist = {}
+    for rep in range(2 if q else 8):
+        grid = rnd.sample(range(1, 82), 5 if rep % 2 == 0 else 7)
+        forests = {1, 2, 3, 4} if rep % 2 == 0 else set(rnd.sample([1, 2, 3, 4], 2))
+        c = vlib.cfg(constants={"N": 4, "Axis": rnd.choice([1, 2, 3]), "NegSide": rnd.random() < 0.5, "SubIdx": set(grid),
+                                "Forests": forests, "MaxLen": 5 if q else 7},
+                     invariants=["HullCoversAll", "SubsetThm"])
+        r = ctx.tlc("HullQuery", c, workers=6, simulate="num=%d" % (9 if q else 40), depth=18, seed=ctx.seed * 10 + rep, timeout=900)
+        for hh in r.tagged.get("HIST", []):
+            hist[json.dumps(hh, sort_keys=True)] = hh
+    hq = list(hist.values())
+    ctx.log("hull query behaviours: %d" % len(hq))
+    cases += hq
 
     # ---- direction A: W2 windows and W1 triangles (one TLC run per tier step)
     windows = []
@@ -293,7 +311,7 @@ def run(ctx):
 
     batch = cases + w2 + w1 + fam
     # trace files of at most ~120k events each (TLC validates 5-8k events/s and keeps the whole file in memory)
-    est = {"c10.hull": 0, "c10.w2": 1400, "c10.w1": 360, "cap": 1150, "cell": 215, "cellunion": 450, "rect": 160, "loop": 700, "meridian": 700, "index": 120,
+    est = {"c10.hull": 0, "c10.hullq": 0, "c10.w2": 1400, "c10.w1": 360, "cap": 1150, "cell": 215, "cellunion": 450, "rect": 160, "loop": 700, "meridian": 700, "index": 120,
            "polyline": 25, "hull": 3}
     group, size = [], 0
     for c in batch:
